@@ -5,6 +5,8 @@ def obligations():
     obs = parser_ob.obligations_seq('O4.2') + parser_ob.obligations_templates('O4.2')
     from props import selftest_ob, lower_ob
     obs += lower_ob.obligations_lower('O4.4')
+    from props import c04_pkg
+    obs += c04_pkg.obligations()
     obs += selftest_ob.parser_obligations('O4.0')
     try:
         from props import e1_obs
